@@ -5,7 +5,9 @@
    RoundTrip(FromHeader(ToHeader(b)) = b) for every single entry with key <= 2, value <= 2 (thorough 3)
    characters and every pair of one-character entries; Set/Delete/round-trip histories of <= 2 (thorough 3) operations (NoDupKeys, SetReplaces,
    DeleteRemoves, HeaderClean, OriginalUntouched); the extraction family (member classes alone and between
-   valid members, limits 180 / 4096 / 8192 below-at-above): ExtractValid.  spec/Composite.tla: every ordered
+   valid members, limits 180 / 4096 / 8192 below-at-above): ExtractValid; headers that state a key more than once
+   (every shape of <= 5 members over three keys, dropped members mixed in, near the limits): DupBand (what the repeated
+   key itself yields is open, every other valid member is kept once, in order).  spec/Composite.tla: every ordered
    subset of {tc, bag, b3, b3m, jg} x every carrier (each wire format independently present) / context shape:
    LastValidWins, CrossFormatApplied, EveryPartWrote, ...
 2. spec -> code: every generated behaviour is replayed on the real Baggage / BaggagePropagator /
@@ -71,9 +73,12 @@ def baggage_runs(ctx):
     # --- histories -----------------------------------------------------------------------------
     # (the exhaustive depth-3 run is independent of everything else: it runs beside the generation runs)
     pool, f3 = None, None
+    pool = cf.ThreadPoolExecutor(max_workers=2)
+    # headers with a repeated key (independent of the other runs too)
+    cd = _cfg(ctx, "dup.cfg", True, "dup", 0, True, 1, "ExtractValid DupBand DupWithinLimit EmitAll")
+    fd = pool.submit(tlc.tlc, "Baggage", cd, rundir=ctx.rundir.path, workers=1, timeout_s=600, tag="dup")
     if thorough:
         c3 = _cfg(ctx, "ops3.cfg", False, "ops", 3, False, 1, INVS, P)
-        pool = cf.ThreadPoolExecutor(max_workers=1)
         f3 = pool.submit(tlc.tlc, "Baggage", c3, rundir=ctx.rundir.path, workers=4, timeout_s=900, coverage=True, tag="ops3")
     c = _cfg(ctx, "ops2.cfg", True, "ops", 2, True, 1, INVS + " EmitAll", P)
     r = tlc.tlc("Baggage", c, rundir=ctx.rundir.path, workers=1, timeout_s=300, tag="ops2")
@@ -126,9 +131,32 @@ def baggage_runs(ctx):
     behs += b
     recs = [x["steps"][0] for x in b]
     if (len(b) < 200 or not any(x["dev"] for x in recs) or not any(x["alt"] for x in recs)
-            or not any(x["ctx0"] == "b0" and x["exp"] == x["b0"] for x in recs)):
+            or not any(x["ctx0"] == "b0" and x["exp"]["u"] == x["b0"] for x in recs)):
         raise Broken("vacuity: extraction family lacks deviation / alternative / untouched-context cases")
-    c = _cfg(ctx, "mix.cfg", True, "mix", 5, True, 1, "ExtractValid EmitMix")
+    r = fd.result()
+    ctx.add_tlc("extraction of headers that state a key more than once: every shape of <= 5 members over 3 keys, dropped "
+                "members mixed in, around the limits (DupBand: the band is open for the repeated key only)", r)
+    tlc.must_ok(r, "Baggage repeated-key family")
+    b = _uniq(r, "dup")
+    counts["dup"] = len(b)
+    behs += b
+    recs = [x["steps"][0] for x in b]
+    # shape of the family, measured: a repeated key / two of them / one stated >= 3 times / followed by >= 2 valid members
+    # with keys of their own / next to a dropped member / in a header of >= 179 members
+    nmem = lambda x: 1 + sum(1 for t in x["hdr"] if t["t"] == "raw" and t["c"] == "cm")
+    dupstat = {
+        "with_repeated_key": sum(1 for x in recs if x["exp"]["d"]),
+        "two_repeated_keys": sum(1 for x in recs if len(x["exp"]["d"]) >= 2),
+        "key_stated_3_times_or_more": sum(1 for x in recs if any(d["n"] >= 3 for d in x["exp"]["d"])),
+        "two_or_more_own_keys_beside": sum(1 for x in recs if x["exp"]["d"] and len(x["exp"]["u"]) >= 2),
+        "with_dropped_member": sum(1 for x in recs if x["exp"]["d"] and any(t["t"] == "bad" for t in x["hdr"])),
+        "near_member_limit": sum(1 for x in recs if x["exp"]["d"] and nmem(x) >= 179),
+        "over_long_header_alternative": sum(1 for x in recs if x["alt"]),
+    }
+    ctx.extra["repeated_key_family"] = dupstat
+    if len(b) < 600 or not all(dupstat.values()):
+        raise Broken("vacuity: repeated-key family lacks a class: %s" % dupstat)
+    c = _cfg(ctx, "mix.cfg", True, "mix", 5, True, 1, "ExtractValid DupBand EmitMix")
     r = tlc.tlc("Baggage", c, rundir=ctx.rundir.path, workers=1, timeout_s=600,
                 simulate={"num": 60 if thorough else 8, "depth": 7}, seed=ctx.seed + 16, tag="mix")
     if r.status != "ok":
@@ -136,10 +164,11 @@ def baggage_runs(ctx):
     b = _uniq(r, "mix")
     counts["mix"] = len(b)
     behs += b
+    ctx.extra["mix_headers_with_repeated_key"] = sum(1 for x in b if x["steps"][0]["exp"]["d"])
     ctx.extra["behaviours_generated"] = counts
+    pool.shutdown()
     if f3 is not None:
         r = f3.result()
-        pool.shutdown()
         ctx.add_tlc("Baggage histories: <= 3 operations on the newest object, 8 keys x 8 values", r)
         if r.status != "timeout":
             tlc.must_ok(r, "Baggage history model checking")
@@ -326,7 +355,9 @@ def run(ctx):
         "the round trip must reproduce the order the object itself reports); Set with an empty / non-printable argument; "
         "members with unescaped non-token characters, a literal '+', or '=' inside the value (wildcard: zero or one valid entry); "
         "'+' or '%20' for a blank and hex-digit case in injected headers; key+value of exactly 4096 bytes; what is kept from a header "
-        "over 8192 bytes / over 180 members (nothing, or only what lies within the limit); duplicate keys in a header; blanks at "
+        "over 8192 bytes / over 180 members (nothing, or only what lies within the limit); what a key stated by several valid "
+        "members of a header yields (1..n entries with stated values, anywhere; GetValue one of them) - every other valid member "
+        "is demanded exactly once, in header order; headers with a repeated key and more than 180 members are not generated; blanks at "
         "the end of ;metadata (optional white space of the header)",
         "memory safety of extraction is covered only as a by-product: ASan/UBSan on every model-generated header and on seeded "
         "arbitrary byte strings, carriers return exactly-sized views without NUL terminator",
@@ -350,12 +381,12 @@ def run(ctx):
     bpool.shutdown()
     ph["tlc_and_build"] = round(ctx.timer.s() - t0, 1)
     t0 = ctx.timer.s()
-    ninst = {"parse": 40 if thorough else 8, "mix": 2 if thorough else 1, "rt1": 1, "rt2": 2 if thorough else 1,
+    ninst = {"parse": 40 if thorough else 8, "dup": 12 if thorough else 3, "mix": 2 if thorough else 1, "rt1": 1, "rt2": 2 if thorough else 1,
              "ops2": 2 if thorough else 1, "opssim": 2 if thorough else 1}
     replay_behs(ctx, bexe, behs, ninst, "baggage")
     replay_behs(ctx, cexe, cbehs, {"comp-extract": 2 if thorough else 1, "comp-inject": 4 if thorough else 2}, "composite")
     ph["replay"] = round(ctx.timer.s() - t0, 1)
-    for src in ("parse", "rt1", "ops2", "comp-extract"):
+    for src in ("parse", "dup", "rt1", "ops2", "comp-extract"):
         b = next((x for x in behs + cbehs if x["src"] == src), None)
         if b:
             ctx.sample({"kind": "TLC behaviour replayed on the real code (%s)" % src, "steps": json.loads(json.dumps(b["steps"]))[:3]}, limit=6)
